@@ -75,6 +75,7 @@ type CrashChoice struct {
 	TearLen int   `json:"tear_len"`
 	Cont    bool  `json:"cont,omitempty"`   // a continuation workload ran on the recovered image
 	Nested  bool  `json:"nested,omitempty"` // the continuation was cut by a second crash enumeration
+	ContSeed uint64 `json:"cont_seed,omitempty"` // C06: seed of the continuation history run on the recovered queue
 }
 
 // Case is a completely described simulation run. A Case with only Prop and Seed
